@@ -75,7 +75,7 @@ def h_races(tier, user=True, double=True):
         obs.append(_ob("H-submit/user-race", H, "h_submit", dict(shapes=["indep2"], bss=[2], maxns=[None], fails=False, cancel_flags=False,
                                                                  user_round=1), **_HO))
     if double:
-        obs.append(_ob("H-submit/double-recovery", H, "h_submit", dict(shapes=["indep2", "indep3"], bss=[1], maxns=[1, 2], fails=False,
+        obs.append(_ob("H-submit/double-recovery", H, "h_submit", dict(shapes=["indep2", "indep3"], bss=[1], maxns=[1], fails=False,
                                                                        cancel_flags=False, double_recovery=True), **_HO))
     return obs
 
